@@ -1,1 +1,540 @@
-//! C11: not implemented yet.
+//! C11 — Unreachable sources are reset, responsive sources are kept.
+//!
+//! Two enumerations over the REAL `NtpSource` (plain modes V4, V5, automatic upgrade):
+//!
+//! (A) exhaustive TREE, no state merging, no abstraction: every answered/unanswered pattern
+//!     of 14 polls (2^14 words) and every pattern over {unanswered, answered usably, answered
+//!     with an unauthenticated DENY} of 11 (quick) / 13 (thorough) polls (3^L words). A poll
+//!     slot = virtual time advances by the interval the source asked for, the timer fires,
+//!     then the slot's answer (if any) is delivered, built at byte level as a real server
+//!     would answer the request just emitted (same version, upgrade marker mirrored). The
+//!     oracle is evaluated after every event, so all shorter patterns are covered as prefixes.
+//!
+//! (B) explicit-state search to FIXPOINT with free-form events, merged on a canonical key:
+//!     timer without time passing, 5.1 s passing (answers become late), usable answer
+//!     (with/without marker), usable answer to the *previous* request, matching DENY, RSTR,
+//!     unknown KISS, stratum-17 answer, client-mode answer. This adds late answers, answers
+//!     after a reset, duplicates, and answers that must not count as usable.
+//!
+//! Oracle (reference register written from the statement): the harness keeps one boolean per
+//! poll sent ("a usable answer to it was received"). At a timer the source must return
+//! exactly [Reset] — or exactly [Demobilize] if a matching unauthenticated DENY/RSTR was seen
+//! since the last usable answer — iff (no poll was ever answered and >= 3 polls were sent) or
+//! (none of the last 8 polls was answered); otherwise exactly [Send, SetTimer]. Once a usable
+//! answer was received, `ObservableSourceState.unanswered_polls` must equal the number of
+//! polls sent since, capped at 8.
+use std::collections::BTreeMap;
+use std::time::Duration;
+
+use super::common::{self, Ctx};
+use crate::source::verif_probe::gd::{self as rig, Ans, IdSel, Kiss, Mode, Rig, View};
+
+const WINDOW_NS: u128 = 5_000_000_000;
+
+#[derive(Clone, Copy, Debug, PartialEq, Eq)]
+enum Ev {
+    /// time advances by the last SetTimer duration (16 s before the first), then timer
+    Tick,
+    /// timer, no time passes
+    Timer,
+    Wait(u64),
+    /// usable answer to the most recent request, as a real server would send it
+    Usable,
+    /// same, but never carrying the upgrade marker
+    UsableNoMarker,
+    /// usable answer to the previous request
+    Stale,
+    Deny,
+    Rstr,
+    KissX,
+    Stratum17,
+    ClientMode,
+}
+
+impl Ev {
+    fn code(&self) -> String {
+        match self {
+            Ev::Tick => "Tick".into(),
+            Ev::Timer => "T".into(),
+            Ev::Wait(ms) => format!("W{ms}"),
+            Ev::Usable => "U".into(),
+            Ev::UsableNoMarker => "Un".into(),
+            Ev::Stale => "S".into(),
+            Ev::Deny => "D".into(),
+            Ev::Rstr => "R".into(),
+            Ev::KissX => "X".into(),
+            Ev::Stratum17 => "H".into(),
+            Ev::ClientMode => "C".into(),
+        }
+    }
+    fn parse(s: &str) -> Option<Ev> {
+        Some(match s {
+            "Tick" => Ev::Tick,
+            "T" => Ev::Timer,
+            "U" => Ev::Usable,
+            "Un" => Ev::UsableNoMarker,
+            "S" => Ev::Stale,
+            "D" => Ev::Deny,
+            "R" => Ev::Rstr,
+            "X" => Ev::KissX,
+            "H" => Ev::Stratum17,
+            "C" => Ev::ClientMode,
+            _ => return s.strip_prefix('W')?.parse().ok().map(Ev::Wait),
+        })
+    }
+}
+
+#[derive(Default)]
+struct Local(BTreeMap<&'static str, u64>);
+impl Local {
+    fn inc(&mut self, k: &'static str) {
+        *self.0.entry(k).or_insert(0) += 1;
+    }
+    fn flush(self, ctx: &Ctx) {
+        for (k, v) in self.0 {
+            ctx.add(k, v);
+        }
+    }
+}
+
+/// Reference register, straight from the statement.
+#[derive(Clone, Debug, Default)]
+struct Reference {
+    /// one entry per poll sent: was a usable answer to it received?
+    answered: Vec<bool>,
+    /// matching unauthenticated DENY / RSTR seen since the last usable answer
+    deny: bool,
+    /// the most recent poll has not been answered usably yet
+    open: bool,
+}
+
+impl Reference {
+    fn never(&self) -> bool {
+        !self.answered.iter().any(|a| *a)
+    }
+    fn missed(&self) -> usize {
+        self.answered.iter().rev().take_while(|a| !**a).count()
+    }
+    /// "received no usable answer within its first three polls, or none within its last
+    /// eight polls"
+    fn must_reset(&self) -> bool {
+        let n = self.answered.len();
+        (self.never() && n >= 3) || (n >= 8 && !self.answered[n - 8..].iter().any(|a| *a))
+    }
+}
+
+struct World {
+    mode: Mode,
+    rig: Rig,
+    rf: Reference,
+    next_interval: Duration,
+}
+
+impl World {
+    fn new(mode: Mode) -> World {
+        World { mode, rig: Rig::new(mode), rf: Reference::default(), next_interval: Duration::from_secs(16) }
+    }
+    fn in_window(&self) -> bool {
+        self.rig.requests.last().map_or(false, |r| tokio::time::Instant::now().duration_since(r.sent_at).as_nanos() < WINDOW_NS)
+    }
+}
+
+enum Step {
+    NotApplicable,
+    Ok(String),
+    Violation(&'static str, String),
+}
+
+fn mirror(w: &World, id: IdSel, marker_allowed: bool, mode: u8, stratum: u8, kiss: Kiss) -> Option<Ans> {
+    let req = w.rig.req_for(id)?;
+    Some(Ans::plain(id, req.version, marker_allowed && req.marker, mode, stratum, kiss))
+}
+
+async fn step(w: &mut World, ev: &Ev, st: &mut Local) -> Step {
+    let r = match ev {
+        Ev::Wait(ms) => {
+            tokio::time::advance(Duration::from_millis(*ms)).await;
+            Step::Ok("waited".into())
+        }
+        Ev::Tick | Ev::Timer => {
+            if *ev == Ev::Tick {
+                tokio::time::advance(w.next_interval).await;
+            }
+            let must_reset = w.rf.must_reset();
+            let obs = w.rig.timer();
+            if let Some(d) = obs.set_timer {
+                w.next_interval = d;
+            }
+            if must_reset {
+                let want_demob = w.rf.deny;
+                if obs.sent.is_some() {
+                    let class = if obs.acts.iter().any(|a| matches!(a, rig::Act::Reset | rig::Act::Demobilize)) {
+                        "C11:sends-while-reset"
+                    } else {
+                        "C11:missing-reset"
+                    };
+                    return Step::Violation(
+                        class,
+                        format!("polls answered {:?}: the source must be {} but the timer returned {:?}", w.rf.answered, if want_demob { "demobilised" } else { "reset" }, obs.acts),
+                    );
+                }
+                if want_demob && !obs.is_demobilize() || !want_demob && !obs.is_reset() {
+                    return Step::Violation(
+                        "C11:reset-vs-demobilize",
+                        format!("polls answered {:?}, deny seen since last usable answer: {want_demob}; timer returned {:?}", w.rf.answered, obs.acts),
+                    );
+                }
+                st.inc(if want_demob { "timers_demobilize" } else { "timers_reset" });
+                if w.rf.never() {
+                    st.inc("resets_startup_rule");
+                } else {
+                    st.inc("resets_eight_missed_rule");
+                }
+                Step::Ok(format!("{:?}", obs.acts))
+            } else {
+                if !obs.is_poll() {
+                    return Step::Violation(
+                        "C11:spurious-reset",
+                        format!("polls answered {:?}: the source must keep polling but the timer returned {:?}", w.rf.answered, obs.acts),
+                    );
+                }
+                w.rf.answered.push(false);
+                w.rf.open = true;
+                st.inc("timers_poll");
+                Step::Ok("poll".into())
+            }
+        }
+        _ => {
+            let ans = match ev {
+                Ev::Usable => mirror(w, IdSel::Match, true, 4, 1, Kiss::Unknown),
+                Ev::UsableNoMarker => mirror(w, IdSel::Match, false, 4, 1, Kiss::Unknown),
+                Ev::Stale => mirror(w, IdSel::Stale, true, 4, 1, Kiss::Unknown),
+                // Only usable answers mirror the upgrade marker: a real server (see
+                // `NtpHeaderV3V4::deny_response` etc.) never puts it into a KISS, and a
+                // marker-carrying unusable answer would switch an automatic source to NTPv5
+                // (C12's subject), after which "answer in the version of the request" is no
+                // longer "answer of the expected version".
+                Ev::Deny => mirror(w, IdSel::Match, false, 4, 0, Kiss::Deny),
+                // NTPv5 has no RSTR encoding: on a v5 request this is a second DENY
+                Ev::Rstr => mirror(w, IdSel::Match, false, 4, 0, Kiss::Rstr).map(|mut a| {
+                    if a.version == 5 {
+                        a.kiss = Kiss::Deny;
+                    }
+                    a
+                }),
+                Ev::KissX => mirror(w, IdSel::Match, false, 4, 0, Kiss::Unknown),
+                Ev::Stratum17 => mirror(w, IdSel::Match, false, 4, 17, Kiss::Unknown),
+                Ev::ClientMode => mirror(w, IdSel::Match, false, 3, 1, Kiss::Unknown),
+                _ => unreachable!(),
+            };
+            let Some(ans) = ans else {
+                return Step::NotApplicable;
+            };
+            let live = w.rf.open && w.in_window() && ans.id == IdSel::Match;
+            let Some((_b, obs)) = w.rig.deliver(&ans) else {
+                return Step::NotApplicable;
+            };
+            let expect_usable = live && ans.usable_fields();
+            if obs.accepted() != expect_usable {
+                return Step::Violation(
+                    "C11:usable-answer-classification",
+                    format!("{} (request open & in window: {live}) measurement delivered: {}, expected {}", ans.code(), obs.accepted(), expect_usable),
+                );
+            }
+            if expect_usable {
+                *w.rf.answered.last_mut().unwrap() = true;
+                w.rf.deny = false;
+                w.rf.open = false;
+                st.inc("usable_answers");
+            } else if live && ans.stratum == 0 && matches!(ans.kiss, Kiss::Deny | Kiss::Rstr) {
+                w.rf.deny = true;
+                st.inc("deny_answers_seen");
+            } else {
+                st.inc("answers_not_counted");
+            }
+            Step::Ok(if obs.accepted() { "usable".into() } else { "ignored".into() })
+        }
+    };
+    // reported missed polls
+    if !w.rf.never() {
+        let want = w.rf.missed().min(8) as u32;
+        let got = w.rig.unanswered_polls();
+        if got != want {
+            return Step::Violation(
+                "C11:unanswered-polls",
+                format!("polls answered {:?}: {} polls since the last usable answer, reported unanswered_polls = {got}", w.rf.answered, w.rf.missed()),
+            );
+        }
+        st.inc(match want {
+            0 => "reported_missed_0",
+            1..=3 => "reported_missed_1_3",
+            4..=7 => "reported_missed_4_7",
+            _ => "reported_missed_8",
+        });
+    }
+    r
+}
+
+// ---------------------------------------------------------------------------------------
+// (A) tree
+// ---------------------------------------------------------------------------------------
+
+fn word_events(word: &[usize]) -> Vec<Ev> {
+    let mut v = Vec::with_capacity(word.len() * 2);
+    for d in word {
+        v.push(Ev::Tick);
+        match d {
+            0 => {}
+            1 => v.push(Ev::Usable),
+            _ => v.push(Ev::Deny),
+        }
+    }
+    v
+}
+
+fn trace_string(mode: Mode, evs: &[Ev]) -> String {
+    format!("{};{}", mode.name(), evs.iter().map(|e| e.code()).collect::<Vec<_>>().join(","))
+}
+
+fn tree(ctx: &Ctx, k: usize, len: usize) {
+    let total = common::pow(k, len);
+    for mode in Mode::PLAIN {
+        common::par_for_with(total, 256, rig::paused_rt, |rt, idx| {
+            let word = common::word_of(idx, k, len);
+            let evs = word_events(&word);
+            rt.block_on(async {
+                let mut w = World::new(mode);
+                let mut st = Local::default();
+                let mut resets = 0u32;
+                let mut n = 0u64;
+                for (i, ev) in evs.iter().enumerate() {
+                    n += 1;
+                    match step(&mut w, ev, &mut st).await {
+                        Step::NotApplicable => {}
+                        Step::Ok(o) => {
+                            if o.starts_with('[') {
+                                resets += 1;
+                            }
+                        }
+                        Step::Violation(class, what) => {
+                            ctx.violation(class, what, trace_string(mode, &evs[..=i]));
+                            break;
+                        }
+                    }
+                }
+                st.inc("histories");
+                *st.0.entry("transitions").or_insert(0) += n;
+                *st.0.entry("evaluations").or_insert(0) += n;
+                if resets > 0 {
+                    st.inc("histories_with_reset_or_demobilize");
+                }
+                if word.iter().all(|d| *d == 1) {
+                    st.inc("always_answering_histories");
+                    if resets == 0 {
+                        st.inc("always_answering_histories_never_reset");
+                    }
+                }
+                // non-trivial: at least one answered and one unanswered poll
+                if word.iter().any(|d| *d == 1) && word.iter().any(|d| *d != 1) {
+                    ctx.distinct(common::hash_of(&(mode, k, &word)));
+                }
+                st.flush(ctx);
+            });
+        });
+    }
+    ctx.add("tree_words", total * 3);
+}
+
+// ---------------------------------------------------------------------------------------
+// (B) fixpoint search
+// ---------------------------------------------------------------------------------------
+
+/// Canonical key of (B).
+/// * `view`: private state of the source (see C12's key for what is left out and why);
+///   `tries` saturated at 3 (only `tries >= 3` is evaluated); pending validity collapsed to
+///   expired / exact remaining ns.
+/// * reference register reduced to what its future depends on: never answered, polls sent
+///   saturated at 3 (only `>= 3` is evaluated, and only while never answered), trailing
+///   unanswered polls saturated at 8 (only `>= 8` and `min(.., 8)` are evaluated; "none of
+///   the last 8 answered" is exactly trailing >= 8), deny flag, request open, in window.
+/// * `nreq`: whether a previous request exists (applicability of `S`).
+#[derive(Clone, Debug, PartialEq, Eq, Hash)]
+struct Key {
+    view: View,
+    never: bool,
+    sent: u8,
+    missed: u8,
+    deny: bool,
+    open: bool,
+    in_window: bool,
+    nreq: u8,
+}
+
+fn key_of(w: &World) -> Key {
+    let mut view = w.rig.view();
+    view.tries = view.tries.min(3);
+    view.pending = view.pending.map(|ns| if ns < 0 { -1 } else { ns });
+    Key {
+        view,
+        never: w.rf.never(),
+        sent: w.rf.answered.len().min(3) as u8,
+        missed: w.rf.missed().min(8) as u8,
+        deny: w.rf.deny,
+        open: w.rf.open,
+        in_window: w.in_window(),
+        nreq: w.rig.requests.len().min(2) as u8,
+    }
+}
+
+const SEQ_ALPHA: [Ev; 11] = [
+    Ev::Timer,
+    Ev::Wait(5100),
+    Ev::Usable,
+    Ev::UsableNoMarker,
+    Ev::Stale,
+    Ev::Deny,
+    Ev::Rstr,
+    Ev::KissX,
+    Ev::Stratum17,
+    Ev::ClientMode,
+    Ev::Tick,
+];
+
+async fn replay_prefix(mode: Mode, hist: &[u16]) -> World {
+    let mut w = World::new(mode);
+    let mut sink = Local::default();
+    for e in hist {
+        let _ = step(&mut w, &SEQ_ALPHA[*e as usize], &mut sink).await;
+    }
+    w
+}
+
+fn fixpoint(ctx: &Ctx, mode: Mode) -> bool {
+    let init_key = super::block_on_paused(async { key_of(&World::new(mode)) });
+    let stats = rig::level_bfs(
+        init_key,
+        400,
+        |rt, hist| {
+            rt.block_on(async {
+                let mut st = Local::default();
+                let mut out = Vec::new();
+                let w0 = replay_prefix(mode, hist).await;
+                let base = key_of(&w0);
+                let mut cur = Some(w0);
+                for (ei, ev) in SEQ_ALPHA.iter().enumerate() {
+                    if cur.is_none() {
+                        cur = Some(replay_prefix(mode, hist).await);
+                    }
+                    let w = cur.as_mut().unwrap();
+                    match step(w, ev, &mut st).await {
+                        Step::NotApplicable => {}
+                        Step::Violation(class, what) => {
+                            let mut evs: Vec<Ev> = hist.iter().map(|e| SEQ_ALPHA[*e as usize]).collect();
+                            evs.push(*ev);
+                            ctx.violation(class, what, trace_string(mode, &evs));
+                            cur = None;
+                        }
+                        Step::Ok(_) => {
+                            let k = key_of(w);
+                            if k != base {
+                                ctx.distinct(common::hash_of(&(mode, "seq", &k)));
+                                cur = None;
+                            }
+                            out.push((ei as u16, k));
+                        }
+                    }
+                }
+                st.flush(ctx);
+                out
+            })
+        },
+        |depth, width| {
+            if ctx.over_budget() {
+                ctx.cap_hit(&format!("(B) mode {}: budget used up before depth {} (frontier {}); complete below", mode.name(), depth, width));
+                return false;
+            }
+            true
+        },
+    );
+    ctx.add("states", stats.states);
+    ctx.add("transitions", stats.transitions);
+    ctx.add("evaluations", stats.transitions);
+    ctx.max("max_depth", stats.max_depth);
+    ctx.note(
+        &format!("fixpoint_mode_{}", mode.name()),
+        &format!("{} states, {} transitions, depth {}, fixpoint {}", stats.states, stats.transitions, stats.max_depth, stats.fixpoint),
+    );
+    stats.fixpoint
+}
+
+fn replay(ctx: &Ctx, trace: &str) -> String {
+    let Some((m, evs)) = trace.split_once(';') else {
+        return "bad trace".into();
+    };
+    let Some(mode) = Mode::parse(m) else {
+        return "bad mode".into();
+    };
+    super::block_on_paused(async {
+        let mut w = World::new(mode);
+        let mut st = Local::default();
+        let mut obs = Vec::new();
+        for code in evs.split(',').filter(|s| !s.is_empty()) {
+            let Some(ev) = Ev::parse(code) else {
+                obs.push(format!("{code}=?"));
+                continue;
+            };
+            match step(&mut w, &ev, &mut st).await {
+                Step::NotApplicable => obs.push(format!("{code}=n/a")),
+                Step::Ok(o) => obs.push(format!("{code}={o}|reach={:#010b},missed={}", w.rig.view().reach, w.rig.unanswered_polls())),
+                Step::Violation(class, what) => {
+                    ctx.violation(class, what.clone(), trace);
+                    obs.push(format!("{code}=VIOLATION {class}: {what}"));
+                    break;
+                }
+            }
+        }
+        obs.join(" ; ")
+    })
+}
+
+#[test]
+fn check() {
+    let ctx = Ctx::new("C11");
+    if let Some(t) = common::replay_trace() {
+        let a = replay(&ctx, &t);
+        let b = replay(&ctx, &t);
+        common::report_replay("C11", &a, &b, ctx.violation_count() > 0);
+        return;
+    }
+    let tern = if ctx.quick() { 11 } else { 13 };
+    ctx.rule(&format!(
+        "(A) tree, no merging: modes plain V4, V5, automatic x every word of 14 poll slots over {{unanswered, answered usably}} \
+         and every word of {tern} poll slots over {{unanswered, answered usably, answered with DENY}}; a slot = time advances \
+         by the requested interval, timer, answer. (B) fixpoint search merged on a canonical key with events {{timer, 5.1 s \
+         pass, usable, usable without marker, usable to previous request, DENY, RSTR, unknown KISS, stratum 17, client mode, \
+         interval+timer}}. The oracle runs after every event. Distinct & non-trivial = a (mode, word) with at least one \
+         answered and one not-answered poll, or a (mode, canonical state) reached by a state-changing transition of (B)."
+    ));
+    ctx.assume("poll limits are the defaults (4..10), the controller always desires the minimum, so polls are 16.2–16.8 s apart in (A): an answer delivered after a reset is late and must be ignored");
+    ctx.assume("a usable answer = matching the open most recent request, < 5 s after it, version of the request, server mode, stratum 1..=16; 'reported missed polls' is only judged after the first usable answer (before it the code reports 8)");
+    ctx.assume("after a timer that returned Reset/Demobilize the daemon drops the source; (B) nevertheless keeps delivering events: a late usable answer inside the window legitimately revives the register (statement evaluated per timer)");
+    // (B) first: it is cheap and breadth-first, so the traces kept for a violation class
+    // are the shortest ones
+    let mut complete = true;
+    for mode in Mode::PLAIN {
+        complete &= fixpoint(&ctx, mode);
+    }
+    tree(&ctx, 2, 14);
+    if ctx.over_budget() {
+        ctx.cap_hit("ternary tree not started");
+        complete = false;
+    } else {
+        tree(&ctx, 3, tern);
+    }
+    ctx.sample("v4;Tick,Tick,Tick,Tick -> poll, poll, poll, [Reset]");
+    ctx.sample("v4;Tick,U,Tick x8 -> polls; 10th Tick -> [Reset]; reported missed polls 0..8");
+    ctx.sample("v4;Tick,D,Tick,Tick,Tick -> [Demobilize]");
+    ctx.sample("v4;Tick,D,Tick,U,Tick x9 -> [Reset] (usable answer clears the deny)");
+    ctx.exhaustive(complete);
+    ctx.finish();
+}
